@@ -158,6 +158,9 @@ func Generate(r *rand.Rand, opt Options) *Program {
 	for i := 0; i < opt.Cases; i++ {
 		fmt.Fprintf(&mb, "\trun(\"case%d\", case%d)\n", i, i)
 	}
+	for _, f := range opt.ExtraMain {
+		fmt.Fprintf(&mb, "\trun(%q, %s)\n", f, f)
+	}
 	mb.WriteString("\tprintln(\"END \" + itoa(traceN))\n}\n")
 	files := map[string]string{"main.go": mb.String(), "helpers.go": helpers}
 	proglib.WithLib(files)
